@@ -48,6 +48,7 @@ type Contract struct {
 	Modifies []*Clause
 	Loops    map[int]*LoopSpec
 	CallAsserts map[string][]*Clause // "callee#n" -> asserts checked before that call
+	OnClosed map[string][]*Clause // rely: facts that hold once a receive found this channel field closed
 	Stable   []string   // channel fields nobody else closes while this function runs (rely, justified at the contract)
 	RecvInv  []*ChanInv // content invariants of channel parameters (recvinv p(v): expr)
 	Reveal   []string // recursive spec functions whose definition the proof may unfold
@@ -238,6 +239,17 @@ func (S *Specs) LoadFile(path string, goFile bool) error {
 			for _, t := range strings.Fields(strings.ReplaceAll(rest, ",", " ")) {
 				cur.Props[t] = true
 			}
+		case "onclosed":
+			// onclosed field: expr
+			i := strings.Index(rest, ":")
+			if i < 0 {
+				return fmt.Errorf("%s: onclosed needs ':'", src)
+			}
+			if cur.OnClosed == nil {
+				cur.OnClosed = map[string][]*Clause{}
+			}
+			fld := strings.TrimSpace(rest[:i])
+			cur.OnClosed[fld] = append(cur.OnClosed[fld], mkClause("onclosed", strings.TrimSpace(rest[i+1:])))
 		case "stable":
 			for _, t := range strings.Fields(strings.ReplaceAll(rest, ",", " ")) {
 				cur.Stable = append(cur.Stable, t)
@@ -441,6 +453,9 @@ func (S *Specs) Finish() error {
 		all = append(all, c.Panics...)
 		for _, ri := range c.RecvInv {
 			all = append(all, ri.C)
+		}
+		for _, cs := range c.OnClosed {
+			all = append(all, cs...)
 		}
 		for _, l := range c.Loops {
 			for _, lt := range l.Lets {
